@@ -1172,6 +1172,11 @@ def run(tier):
         for ff in f:
             ff.update(cls=q, mode=str(mode), seed=seed, edge_strings=bool(which))
             ff['key'] = classify(ff, trig, unit_tags, bool(which))
+            ra_, rb_ = ff.get('_raw', (None, None))
+            uv = False
+            if ff['kind'] == 'xml-stability' and isinstance(ra_, bytes):
+                uv = any(near(t1, t2) and any(c in unit_tags for c in tp) for tp, t1, t2 in (xml_text_diffs(ra_, rb_) or []))
+            ff['_uv'] = uv
             ff.pop('_raw', None)
         for ff in f:
             # the re-serialisation differs because the re-parsed structure differs: when every field-level difference of this instance
@@ -1181,10 +1186,12 @@ def run(tier):
                 causes = [g for g in f if g['kind'] in (fam, fam + '-exception') and g.get('variant') == ff.get('variant')]
                 if causes and all(g['key'] for g in causes):
                     keys = {k for g in causes for k in g['key'].split('+')}
-                    if any(t[1] == 'unit-vector-renormalised-on-reassignment' for t in trig):
+                    # the unit-vector defect joins the attribution only when a unit-vector leaf of the text really differs in the last bits
+                    if ff.get('_uv') and any(t[1] == 'unit-vector-renormalised-on-reassignment' for t in trig):
                         keys.add('unit-vector-renormalised-on-reassignment')
                     ff['key'] = '+'.join(sorted(keys))
         for ff in f:
+            ff.pop('_uv', None)
             ff['msg'] = f'{q} [{ff["kind"]}] {ff["path"]}: {ff["what"]}'
         fails += f
         if not f:
